@@ -391,6 +391,18 @@ func (e *Engine) run(frp **Frame, s *State, blk, prev, stop *ssa.BasicBlock, phi
 						panic(unsupported("region outcomes differ at %s", e.pos(i)))
 					}
 					e.mergeStates(s, c, s1, s2)
+					// registers redefined on one side (loop headers re-entered by the continuing side) and read
+					// after the join must be merged as well
+					for k, v1 := range f1.regs {
+						if v2, ok := f2.regs[k]; ok && !sameValue(v1, v2) {
+							f1.regs[k] = e.mergeRegs(c, v1, v2)
+						}
+					}
+					for k, v2 := range f2.regs {
+						if _, ok := f1.regs[k]; !ok {
+							f1.regs[k] = v2
+						}
+					}
 					*frp = f1
 					mo.k = o1.k
 					if o1.k == oReturn {
@@ -1468,4 +1480,19 @@ func (e *Engine) leafWidthAny(t types.Type) int {
 		}
 	}
 	return 0
+}
+
+// mergeRegs merges two register values; values that cannot be merged (and therefore must not be read after
+// the join) become poison.
+func (e *Engine) mergeRegs(c *Term, a, b Value) (r Value) {
+	defer func() {
+		if x := recover(); x != nil {
+			if _, ok := x.(*Unsupported); ok {
+				r = &Poison{Why: "register values that cannot be merged"}
+				return
+			}
+			panic(x)
+		}
+	}()
+	return e.mergeValue(c, a, b)
 }
